@@ -547,6 +547,17 @@ func moveRec(name string, in *tarFile, out *tarFile, picked map[string]struct{})
 	}
 
 	parent, _ := path.Split(strings.TrimSuffix(name, "/"))
+	// An ancestor directory that doesn't have its own entry (implicit parent)
+	// has nothing to move and isn't a missing file. Continue with its ancestors.
+	for cleanEntryName(parent) != "" {
+		if _, ok := in.get(parent); ok {
+			break
+		}
+		if _, ok := out.get(parent); ok {
+			break
+		}
+		parent, _ = path.Split(strings.TrimSuffix(parent, "/"))
+	}
 	if err := moveRec(parent, in, out, picked); err != nil {
 		return err
 	}
